@@ -206,6 +206,7 @@ func runC17(c *Ctx) {
 
 	shrinkBudget := c.Pick(2, 4)
 	acceptedT, acceptedF, same := 0, 0, 0
+	tinyVsFcBudget := 3
 	for i, p := range progs {
 		rt.record(casesT[i])
 		c.Eval(p.ToSexp(), p.Size() >= 25)
@@ -221,6 +222,13 @@ func runC17(c *Ctx) {
 		rf.judge(casesF[i], &shrinkBudget)
 		if casesT[i].Ran && casesF[i].Ran && casesT[i].Out == casesF[i].Out && casesT[i].Panic == casesF[i].Panic {
 			same++
+		} else if casesT[i].Ran && casesF[i].Ran && tinyVsFcBudget > 0 {
+			// "…i.e. the same output fc's translation of the same program gives": also on the hazard
+			// programs, where both are known to deviate from the source in the SAME way
+			tinyVsFcBudget--
+			c.Violate("tiny-vs-fc", fmt.Sprintf("tinyfo's and fc's translations of one program print different output (%s)", origins[i]),
+				map[string]any{"origin": origins[i], "source": casesT[i].Src, "stdout_tinyfo": casesT[i].Out, "stdout_fc": casesF[i].Out,
+					"panic_tinyfo": casesT[i].Panic, "panic_fc": casesF[i].Panic, "expected_by_source_semantics": casesT[i].expectOut()}, false)
 		}
 	}
 	c.Lap("compare")
